@@ -117,14 +117,26 @@ def r_load(ctx, model):
             kw_accept(k, "header", lambda v: v in (0, "infer") or v == 0)
             kw_accept(k, "engine", lambda v: True)
             cap["read"] = (a, {kk: k.get(kk) for kk in ("sep", "index_col", "delim_whitespace")})
-            return Table("VAR")
+            t_ = Table("VAR")
+            if k.get("index_col") == 0:
+                from ..tablemodel import qha_corner_label
+                t_.index_name = qha_corner_label("save_x_tp")       # the corner text of the header line becomes the name of the index
+            return t_
 
         intr = table_intrinsics({})
         intr.update({"glob.glob": glob_, "pandas.read_table": read_table, "pandas.read_csv": read_table, "builtins.float": lambda ev, a, k: a[0],
                      "numpy.float64": lambda ev, a, k: a[0]})
         ev = Ev(model, {}, intr, ctx=ctx)
+        from ..sym import explore_branches
+
+        def run(decide):
+            ev.branch_oracle = decide
+            try:
+                return ev.call_def(f, model.mods[modname], ref, ["VARNAME"], {})
+            finally:
+                ev.branch_oracle = None
         try:
-            t = ev.call_def(f, model.mods[modname], ref, ["VARNAME"], {})
+            paths = explore_branches(run, limit=8)
         except AnalysisError as e:
             lm = getattr(e, "label_mismatch", None)
             if lm is None:
@@ -134,6 +146,16 @@ def r_load(ctx, model):
                                       f"re-numbered or taken from the other axis): the nearest-value search and the printed labels no longer refer to the table's own grid",
                           instance=f"{modname.split('.')[-1]}.load_data labels")
             continue
+        # a branch on the VALUES of the table (its labels, its entries) can go either way for valid tables: the loader must hand back the table as written on every path
+        wrong = [(dec, tt) for dec, tt in paths if not (isinstance(tt, Table) and (tt.index, tt.columns) == ("T", "P"))]
+        if len(paths) > 1:
+            ctx.check(not wrong, f"{modname.split('.')[-1]}.load_data: every outcome of its data-dependent branch(es) returns the table with temperatures down the rows and pressures across", w,
+                      expected="rows = temperatures, columns = pressures whatever the values in the table", found="; ".join(
+                          f"when [{', '.join(str(c_)[:80] + (' holds' if v_ else ' fails') for c_, v_ in dec)}]: rows {getattr(tt, 'index', '?')}, columns {getattr(tt, 'columns', '?')}" for dec, tt in wrong[:2]) or f"{len(paths)} paths alike",
+                      explanation=f"{modname.split('.')[-1]}.load_data decides from the NUMBERS in the table how to orient it: for tables on which the test goes the other way (a temperature range below the "
+                                  f"pressure range, say) rows and columns are exchanged - extract returns a pressure column for a requested temperature, the geotherm spline is fitted with T and P interchanged",
+                      key=f"{modname}.load.orientation")
+        t = next((tt for dec, tt in paths if not any(v_ for _, v_ in dec)), paths[0][1])
         a, k = cap.get("read", ((), {}))
         ok = isinstance(t, Table) and t.parsed == {"index": True, "columns": True} and a and a[0] == "FILE0" and k.get("index_col") == 0 \
             and (whitespace_sep(k.get("sep")) or k.get("delim_whitespace") is True)
@@ -153,6 +175,7 @@ def r_load(ctx, model):
                 n += 1
                 # the loader is folded again with this very name (string methods applied to the name act on its characters: rstrip("_tp") eats the p of v_p)
                 cap.pop("pattern", None)
+                ev.branch_oracle = lambda v_: False         # which file is looked up does not depend on the table's values; orientation is judged above
                 try:
                     ev.call_def(f, model.mods[modname], ref, [var], {})
                 except RaisedV as e:
